@@ -11,6 +11,7 @@ require (
 	github.com/klauspost/compress v1.18.0
 	golang.org/x/crypto v0.37.0
 	google.golang.org/protobuf v1.36.6
+	pluginrpc.com/pluginrpc v0.5.0
 )
 
 require (
@@ -99,7 +100,6 @@ require (
 	google.golang.org/genproto/googleapis/api v0.0.0-20250409194420-de1ac958c67a // indirect
 	google.golang.org/genproto/googleapis/rpc v0.0.0-20250409194420-de1ac958c67a // indirect
 	gopkg.in/yaml.v3 v3.0.1 // indirect
-	pluginrpc.com/pluginrpc v0.5.0 // indirect
 )
 
 replace github.com/bufbuild/buf => /repo
